@@ -122,7 +122,8 @@ namespace
 
     template <typename I> void leaf(const I &in, std::int64_t p, Toks &d, Toks &v)
     {
-        if (in.modified()) { d.emplace_back(p, pv(p, in.value())); }
+        // a child re-bound by a REF selection onto a child that is not valid is marked modified without a value: no tick
+        if (in.modified() && (g_sel == 0 || in.valid())) { d.emplace_back(p, pv(p, in.value())); }
         if (in.valid()) { v.emplace_back(p, pv(p, in.value())); }
     }
     std::optional<Int> pick(const Writes &ws, std::int64_t p)
